@@ -3992,6 +3992,10 @@ def trait_impl_listing(repo):
     return res
 
 
+BEHAVIOURAL_TRAITS = {"Iterator", "IntoIterator", "Extend", "PartialEq", "Eq", "Default", "Deref", "DerefMut", "Serializable",
+                      "Build", "NumBits", "Access", "Rank", "Select", "NumVals"}
+
+
 def gen_traitimpls(repo):
     """The models describe the methods a trait impl defines; the provided (default) methods of the trait are whatever
     the trait declares (for `Iterator`: nth, count, last, fold, ... derived from `next`).  A method added to or removed
@@ -4007,7 +4011,11 @@ def gen_traitimpls(repo):
             if h not in b:
                 diffs.append("%s: `impl %s` disappeared" % (f, h))
             elif h not in a:
-                diffs.append("%s: new `impl %s` {%s}" % (f, h, ", ".join(b[h])))
+                # a new impl of a trait the modelled behaviour does not go through (Display, Clone, Hash, From, ..)
+                # changes nothing that exists; one of the traits below does
+                trait = re.sub(r"\s*<.*$", "", h.split(" for ")[0]).split("::")[-1].strip()
+                if trait in BEHAVIOURAL_TRAITS:
+                    diffs.append("%s: new `impl %s` {%s}" % (f, h, ", ".join(b[h])))
             elif a[h] != b[h]:
                 added = sorted(set(b[h]) - set(a[h]))
                 gone = sorted(set(a[h]) - set(b[h]))
